@@ -32,6 +32,14 @@ type c19aScenario struct {
 	ExecSeed uint64   `json:"exec_seed"`
 	NilMap   bool     `json:"nil_services_map,omitempty"`
 	HoldAll  bool     `json:"hold_all,omitempty"` // no callback returns before all N have been entered (any completion order must be possible)
+	SharedRepo bool   `json:"shared_repository,omitempty"` // all services use one repository with different tags (img:sN instead of img-sN)
+}
+
+func (sc *c19aScenario) image(n string) string {
+	if sc.SharedRepo {
+		return "img:" + n
+	}
+	return "img-" + n
 }
 
 func (sc *c19aScenario) project() *types.Project {
@@ -41,7 +49,7 @@ func (sc *c19aScenario) project() *types.Project {
 	}
 	for i := 0; i < sc.N; i++ {
 		n := fmt.Sprintf("s%d", i)
-		p.Services[n] = types.ServiceConfig{Name: n, Image: "img-" + n, Labels: types.Labels{"k": n}, Environment: types.MappingWithEquals{"E": nil}}
+		p.Services[n] = types.ServiceConfig{Name: n, Image: sc.image(n), Labels: types.Labels{"k": n}, Environment: types.MappingWithEquals{"E": nil}}
 	}
 	p.Networks = types.Networks{"default": types.NetworkConfig{Name: "sim_default"}}
 	return p
@@ -140,6 +148,9 @@ func runFanout(t *testing.T, sc *c19aScenario, record bool) *c19aOutcome {
 			case "images":
 				result, retErr = project.WithImagesResolved(func(named reference.Named) (godigest.Digest, error) {
 					name := strings.TrimPrefix(reference.Path(named), "library/img-")
+					if t, ok := named.(reference.Tagged); ok && sc.SharedRepo {
+						name = t.Tag()
+					}
 					if err := call(name); err != nil {
 						return "", err
 					}
@@ -257,7 +268,7 @@ func runFanout(t *testing.T, sc *c19aScenario, record bool) *c19aOutcome {
 			switch sc.Op {
 			case "images":
 				// the digest handed back by the callback of this very service, on this service's image
-				if !strings.HasPrefix(got.Image, "docker.io/library/img-"+n) || !strings.HasSuffix(got.Image, "@"+godigest.FromString(n).String()) {
+				if !strings.HasPrefix(got.Image, "docker.io/library/"+sc.image(n)) || !strings.HasSuffix(got.Image, "@"+godigest.FromString(n).String()) {
 					problem("result-wrong", fmt.Sprintf("%s image %q does not carry its own digest %s", n, got.Image, godigest.FromString(n)))
 				}
 			default:
@@ -309,6 +320,7 @@ func c19aRun(c *Ctx, r *zsimrt.Run) {
 	}
 	sc.Strategy = r.Draw("strategy", 3)
 	sc.HoldAll = len(sc.Fail) == 0 && r.Chance("hold-all", 1, 3)
+	sc.SharedRepo = r.Chance("shared-repo", 1, 2)
 	sc.ExecSeed = uint64(r.Draw("exec-seed", 1<<30)) + 1
 	c19aExec(c, sc)
 }
